@@ -3,6 +3,7 @@ pub mod bankops;
 pub mod cfgsim;
 pub mod config;
 pub mod curve;
+pub mod hops;
 pub mod oracle;
 pub mod panic;
 pub mod prefee;
@@ -13,6 +14,7 @@ pub fn lookup(name: &str) -> Option<fn(&str) -> String> {
         "panic" => panic::run,
         "curve" => curve::run,
         "bankops" => bankops::run,
+        "hops" => hops::run,
         "prefee" => prefee::run,
         "xrate" => xrate::run,
         "oracle" => oracle::run,
